@@ -12,6 +12,9 @@ VARIABLES blob, cst, stat
 tvars == <<obj, l, blob, cst, stat>>
 
 Srt(s) == SortSeq(s, <)
+\* "non-decreasing" is judged up to rounding: the harness reports the largest decrease between consecutive answers in
+\* units in the last place of the answer type (maxdrop, 0 = none); a decrease of at most UlpTol ulps is not a decrease
+UlpTol == 4
 \* did the logged call compress?  the harness logs the centroid list whenever it changed
 Comp(e) == Has(e, "cent")
 NC(e) == IF Has(e, "cent") THEN e.cent ELSE <<>>
@@ -86,7 +89,7 @@ TRankGrid == IsEvent("RankGrid") /\ LET e == Log[l] IN
                /\ Chk("rank-range", RankRange(e.rs, cst.zero, cst.one))
                /\ Chk("rank-below-min", RankBelowMin(o, e.xs, e.rs, cst.zero))
                /\ Chk("rank-above-max", RankAboveMax(o, e.xs, e.rs, cst.one))
-               /\ Chk("rank-monotone", RankMonotone(e.xs, e.rs))
+               /\ Chk("rank-monotone", AscS(e.xs) /\ Len(e.rs) = Len(e.xs) /\ (NonDecS(e.rs) \/ e.maxdrop <= UlpTol))
             /\ UNCHANGED <<blob, cst, stat>>
 TQuantGrid == IsEvent("QuantGrid") /\ LET e == Log[l] IN
             /\ SideEffect(e.id, e)
@@ -95,16 +98,16 @@ TQuantGrid == IsEvent("QuantGrid") /\ LET e == Log[l] IN
                /\ Chk("quantile-finite", e.nnan = 0)
                /\ Chk("quantile-range", QuantRange(o, e.qs))
                /\ Chk("quantile-ends", QuantEnds(o, e.ps, e.qs, cst.zero, cst.one))
-               /\ Chk("quantile-monotone", QuantMonotone(e.ps, e.qs))
+               /\ Chk("quantile-monotone", AscS(e.ps) /\ Len(e.qs) = Len(e.ps) /\ (NonDecS(e.qs) \/ e.maxdrop <= UlpTol))
             /\ UNCHANGED <<blob, cst, stat>>
 TCdf == IsEvent("Cdf") /\ LET e == Log[l] IN
             /\ SideEffect(e.id, e)
             /\ Scalars(e, obj'[e.id])
             /\ Chk("cdf-finite", e.nnan = 0)
             /\ Chk("cdf-is-rank", CdfIsRank(e.cdf, e.ranks, cst.one))
-            /\ Chk("cdf-monotone", NonDecS(e.cdf))
+            /\ Chk("cdf-monotone", NonDecS(e.cdf) \/ e.maxdrop <= UlpTol)
             /\ Chk("pmf-is-cdf-difference", e.pmf = e.pmfref)
-            /\ Chk("pmf-nonnegative", \A x \in 1..Len(e.pmf) : e.pmf[x] >= cst.zero)
+            /\ Chk("pmf-nonnegative", e.maxdrop > 0 \/ \A x \in 1..Len(e.pmf) : e.pmf[x] >= cst.zero)
             /\ UNCHANGED <<blob, cst, stat>>
 \* documented: rank / quantile / PMF / CDF / min / max of an empty sketch throw
 TEmptyQuery == IsEvent("EmptyQuery") /\ LET e == Log[l] IN
